@@ -61,15 +61,16 @@ def correspond(ctx):
         meta.append({"fn": "zernikeRadialFunc", "n": n, "m": m, "nontrivial": True})
         # normalisations and list/count dispatch
         J = rng.randint(3, 8)
-        for norm, fn in (("p2v", "norm_p2v F"), ("rms", "norm_rms F %d" % N)):
+        for norm, code in (("p2v", 1), ("rms", 2)):
             Zs = zk.zernikeArray(J, N, norm=norm)
             jj = rng.randint(2, J)
-            cases.append("okm %s %s (%s (zernike_noll F %d %d 0)) %s" % (hexf(1e-10), hexf(float(numpy.abs(Zs[jj - 1]).max())), fn, jj, N, flist2(Zs[jj - 1])))
+            cases.append("okm %s %s (nth %d (zernike_array_count F %d %d %d 0) []) %s" % (hexf(1e-10), hexf(float(numpy.abs(Zs[jj - 1]).max())), jj - 1, J, N, code, flist2(Zs[jj - 1])))
             meta.append({"fn": "zernikeArray/" + norm, "J": J, "N": N, "j": jj, "nontrivial": True})
         lst = [rng.randint(1, 15) for _ in range(3)]
-        Zl = zk.zernikeArray(lst, N)
-        cases.append("okm %s %s (zernike_noll F %d %d 0) %s" % (hexf(1e-10), hexf(float(numpy.abs(Zl[1]).max())), lst[1], N, flist2(Zl[1])))
-        meta.append({"fn": "zernikeArray/list", "list": lst, "N": N, "nontrivial": True})
+        nrm, code = rng.choice([("noll", 0), ("p2v", 1), ("rms", 2)])
+        Zl = zk.zernikeArray(lst, N, norm=nrm, rot=rot)
+        cases.append("okm %s %s (nth 1 (zernike_array_list F [%s]%%Z %d %d %s) []) %s" % (hexf(1e-10), hexf(float(numpy.abs(Zl[1]).max())), "; ".join(str(x) for x in lst), N, code, hexf(rot), flist2(Zl[1])))
+        meta.append({"fn": "zernikeArray/list", "list": lst, "N": N, "norm": nrm, "rot": rot, "nontrivial": True})
         co = [rng.uniform(-2, 2) for _ in range(rng.randint(1, 6))]
         ph = zk.phaseFromZernikes(co, N)
         cases.append("okm %s %s (phase_from_zernikes F %s %d 0) %s" % (hexf(1e-10), hexf(float(numpy.abs(ph).max())), flist(co), N, flist2(ph)))
